@@ -182,4 +182,78 @@ theorem frame_global_lem {s s' : State} {l : Table} {n : Bytes} {tag : Nat} {r :
         · exact .inl h7
         · exact .inr ⟨h7, h8, .inl h9⟩
 
+theorem isolation_define_lem {s s' : State} {l : Table} {n : Bytes} {v : Int} {tag : Nat} {r : Option Level}
+    (hl : s.locals = some l) (h : stmt s (.const n v tag) = .ok (s', r) ∨ stmt s (.label n v tag) = .ok (s', r)) :
+    s'.globals = s.globals ∧
+    ∃ l', s'.locals = some l' ∧ ∀ m, l'.find m = l.find m ∨ (m = n ∧ l'.find m = some (some v)) := by
+  have key : ∀ {s1 : State} {res : Except CErr Bool}, insertConstant s n v .loc = .ok (s1, res) →
+      s1.globals = s.globals ∧
+      ∃ l', s1.locals = some l' ∧ ∀ m, l'.find m = l.find m ∨ (m = n ∧ l'.find m = some (some v)) := by
+    intro s1 res hi
+    obtain ⟨hg, hc⟩ := insertConstant_loc_char hi
+    refine ⟨hg, ?_⟩
+    rcases hc with hc | ⟨l0, hl0, _, hc⟩
+    · exact ⟨l, by rw [hc, hl], fun m => .inl rfl⟩
+    · rw [hl] at hl0; cases hl0
+      exact ⟨_, hc, set_change l n (some v)⟩
+  rcases h with h | h
+  · simp only [stmt] at h
+    unfold doConst at h
+    split at h
+    · cases h
+    all_goals (rename_i hi; cases h; have hk := key hi; exact hk)
+  · simp only [stmt] at h
+    unfold doLabel at h
+    split at h
+    · cases h
+    all_goals (rename_i hi; cases h; have hk := key hi; exact hk)
+
+theorem isolation_import_lem {s s' : State} {l : Table} {n : Bytes} {tag : Nat} {r : Option Level}
+    (hl : s.locals = some l) (h : stmt s (.import n tag) = .ok (s', r)) :
+    s'.globals = s.globals ∧
+    ∃ l', s'.locals = some l' ∧ ∀ m, l'.find m = l.find m ∨ (m = n ∧ l'.find m = s.globals.find n) := by
+  simp only [stmt] at h
+  unfold doImport at h
+  split at h
+  · cases h
+  · cases h; exact ⟨rfl, l, hl, fun m => .inl rfl⟩
+  · rename_i hg
+    have hgf : s.globals.find n = some none := by
+      simp only [getConstant] at hg
+      exact get_deferred (Except.ok.inj hg)
+    have key : ∀ {s1 : State} {res : Except CErr Unit}, deferConstant s n .loc = .ok (s1, res) →
+        s1.globals = s.globals ∧
+        ∃ l', s1.locals = some l' ∧ ∀ m, l'.find m = l.find m ∨ (m = n ∧ l'.find m = s.globals.find n) := by
+      intro s1 res hd
+      obtain ⟨hgl, hc⟩ := deferConstant_loc_char hd
+      refine ⟨hgl, ?_⟩
+      rcases hc with hc | ⟨l0, hl0, _, hc⟩
+      · exact ⟨l, by rw [hc, hl], fun m => .inl rfl⟩
+      · rw [hl] at hl0; cases hl0
+        exact ⟨_, hc, fun m => by rw [hgf]; exact set_change l n none m⟩
+    split at h
+    · cases h
+    · rename_i hd; cases h; have hk := key hd; exact hk
+    · rename_i hd; cases h; have hk := key hd; exact hk
+    · cases h
+  · rename_i v hg
+    have hgf : s.globals.find n = some (some v) := by
+      simp only [getConstant] at hg
+      exact get_found (Except.ok.inj hg)
+    have key : ∀ {s1 : State} {res : Except CErr Bool}, insertConstant s n v .loc = .ok (s1, res) →
+        s1.globals = s.globals ∧
+        ∃ l', s1.locals = some l' ∧ ∀ m, l'.find m = l.find m ∨ (m = n ∧ l'.find m = s.globals.find n) := by
+      intro s1 res hi
+      obtain ⟨hgl, hc⟩ := insertConstant_loc_char hi
+      refine ⟨hgl, ?_⟩
+      rcases hc with hc | ⟨l0, hl0, _, hc⟩
+      · exact ⟨l, by rw [hc, hl], fun m => .inl rfl⟩
+      · rw [hl] at hl0; cases hl0
+        exact ⟨_, hc, fun m => by rw [hgf]; exact set_change l n (some v) m⟩
+    split at h
+    · cases h
+    · rename_i hi; cases h; have hk := key hi; exact hk
+    · rename_i hi; cases h; have hk := key hi; exact hk
+    · cases h
+
 end Trion.Scope
